@@ -1,5 +1,139 @@
 import vp
 from C12 import PROGS
+TRUNC = [
+    ('6502', 'lda (0x10),y'),
+    ('6502', 'bne 0x1010'),
+    ('6502', 'lda 0x1234,x'),
+    ('65816', 'lda [0x10],y'),
+    ('65816', 'brl 0x1100'),
+    ('65816', 'mvn 1,2'),
+    ('65816', 'lda 0x123456,x'),
+    ('6800', 'ldaa 0x10,x'),
+    ('6809', 'lda 0x10,x'),
+    ('6809', 'lbra 0x1100'),
+    ('68hc08', 'lda 0x10,x'),
+    ('68hc08', 'bra 0x1010'),
+    ('z80', 'ld a,(ix+5)'),
+    ('z80', 'jr nz,0x1010'),
+    ('z80', 'ld (0x1234),hl'),
+    ('z80', 'bit 3,(hl)'),
+    ('z80', 'ld (ix+5),7'),
+    ('8051', 'mov A,#0x10'),
+    ('8051', 'sjmp 0x1010'),
+    ('8051', 'mov 0x10,#5'),
+    ('8051', 'cjne A,#5,0x1010'),
+    ('avr8', 'ldi r16,0x10'),
+    ('avr8', 'rjmp 0x1010'),
+    ('avr8', 'ldd r16,Y+5'),
+    ('avr8', 'sbi 5,3'),
+    ('avr8', 'lds r16,0x100'),
+    ('msp430', 'mov.w #5,r4'),
+    ('msp430', 'mov.w 2(r4),r5'),
+    ('msp430x', 'mova #0x12345,r5'),
+    ('stm8', 'ld A,(0x10,X)'),
+    ('stm8', 'jra 0x1010'),
+    ('stm8', 'btjt 0x10,#2,0x1010'),
+    ('stm8', 'ldw X,(0x10,SP)'),
+    ('riscv', 'lw x5,8(x6)'),
+    ('riscv', 'beq x1,x2,0x1010'),
+    ('riscv', 'addi x5,x6,7'),
+    ('mips32', 'lw $t0,8($sp)'),
+    ('mips32', 'beq $t0,$t1,0x1010'),
+    ('mips32', 'addi $t0,$t1,5'),
+    ('arm', 'ldr r0,[r1,#4]'),
+    ('arm', 'add r0,r1,#4'),
+    ('thumb', 'ldr r0,[r1,#4]'),
+    ('thumb', 'add r0,#4'),
+    ('arm64', 'add x0,x1,#4'),
+    ('68000', 'move.w #5,d0'),
+    ('68000', 'move.w (4,a0),d1'),
+    ('68000', 'moveq #5,d0'),
+    ('68000', 'bra.s 0x1010'),
+    ('68000', 'lea (4,a0),a1'),
+    ('pic14', 'movlw 0x10'),
+    ('pic14', 'bsf 5,3'),
+    ('tms9900', 'li r1,0x1234'),
+    ('tms9900', 'mov @0x100(r1),r2'),
+    ('8008', 'mvi a,5'),
+    ('8008', 'jmp 0x1010'),
+    ('1802', 'ldi 5'),
+    ('1802', 'br 0x1010'),
+    ('lc3', 'add r1,r2,#3'),
+    ('lc3', 'ldr r1,r2,#3'),
+    ('sh4', 'mov #5,r1'),
+    ('sh4', 'mov.l @(4,r1),r2'),
+    ('propeller', 'mov 5,#6'),
+    ('propeller2', 'mov 5,#6'),
+    ('8048', 'mov a,#5'),
+    ('8048', 'jmp 0x110'),
+    ('4004', 'jun 0x123'),
+    ('dspic', 'mov #5,w0'),
+    ('dspic', 'add w0,w1,w2'),
+    ('pdp8', 'tad 010'),
+    ('epiphany', 'mov r0,#5'),
+    ('super_fx', 'iwt r1,#0x1234'),
+    ('powerpc', 'addi r1,r2,5'),
+    ('powerpc', 'lwz r1,8(r2)'),
+    ('powerpc', 'b 0x1010'),
+    ('tms1000', 'tcy 5'),
+    ('cp1610', 'mvii #5,r1'),
+    ('xtensa', 'addi a1,a2,5'),
+    ('arc', 'add r0,r1,5'),
+    ('cell', 'ai r1,r2,5'),
+    ('ebpf', 'add r1,5'),
+    ('webasm', 'i32.const 5'),
+    ('pic18', 'movlw 5'),
+    ('pic24', 'mov #5,w0'),
+    ('ps2_ee', 'lw $t0,8($sp)'),
+    ('thumb', 'bl 0x1010'),
+    ('86000', 'mov #5,0x10'),
+    ('f100_l', 'add 0x100'),
+    ('lc3', 'br 0x1010'),
+    ('4004', 'jcn 11, 0xc2'),
+    ('4004', 'fim 8, 0x7e'),
+    ('4004', 'isz 10, 0x99'),
+    ('8041', 'out dbb, A'),
+    ('8041', 'mov sts, A'),
+    ('f8', 'lr dc0, h'),
+    ('f8', 'bt 3, 0x1010'),
+    ('m8c', 'mov [0x10], 0x42'),
+    ('m8c', 'add [X+0x10], A'),
+    ('n64_rsp', 'sbv $v4[10], 7($16)'),
+    ('n64_rsp', 'vmacq $v4, $v2, $v29'),
+    ('pdk13', 'sub a, 0x41'),
+    ('pdk13', 'or [0x02], a'),
+    ('pdk14', 'xor a, [0x02]'),
+    ('pdk15', 'mov a, 0x1b'),
+    ('pdk15', 'nadd a, [0x02]'),
+    ('pdk16', 'mov a, 0x1b'),
+    ('ps2_ee_vu1', 'madday.xz acc, vf4, vf23  nop'),
+    ('ps2_ee_vu0', 'addax.xz acc, vf4, vf23  nop'),
+    ('riscv64', 'amoand.d x17, x26, (x6)'),
+    ('riscv64', 'sraiw x30, x25, 28'),
+    ('sweet16', 'set r3, 0x1234'),
+    ('tms340', 'move *a10, *a4, 0'),
+    ('tms340', 'pixblt XY, L'),
+    ('unsp', 'add r4,[0x33]'),
+    ('unsp', 'add r4,#34'),
+    ('unsp', 'or r1,r2 lsr 1'),
+    ('65832', 'lda 0x1234,x'),
+    ('mips', 'lw $t0,8($sp)'),
+    ('pic32', 'lw $t0,8($sp)'),
+    ('tms1100', 'tcy 5'),
+    ('pdp11', 'mov #5, r1'),
+    ('pdp11', 'mov 4(r1), r2'),
+    ('agc', 'ad 0100'),
+    ('java', 'bipush 5'),
+    ('java', 'iinc 1, 2'),
+    ('copper', 'wait 10, 20'),
+]
+
+def trunc_name(cpu, ins):
+    nm = "%s.%s" % (cpu, ins)
+    for a, b in ((" ", "_"), (",", ""), ("#", "i"), ("(", "L"), (")", "R"), ("$", ""), ("[", "B"), ("]", "E"), ("+", "p"), ("@", "at"), ("%", ""), ("=", "eq")):
+        nm = nm.replace(a, b)
+    return nm
+
 def jobs(tier):
     js = []
     combos = [("msp430_basic", '"-type","hex"', '"-type","hex","-l","-dump_symbols"', "hex_l_dump"),
@@ -18,6 +152,12 @@ def jobs(tier):
               "6502": ".6502\\n.org 0xfff0\\n  lda #1\\n  .dc32 0x11223344\\n  .ascii \\\"ab\\\"\\n  rts\\n"}
     for nm in (["msp430", "z80"] if tier == "quick" else ["msp430", "z80", "6502"]):
         js.append(vp.Job("crosstype." + nm, "crosstype.cpp", {"PROGRAM": '"%s"' % XPROGS[nm]}, max_paths=20000, timeout=600, min_completed=1))
+    # an instruction cut short at every character position: whatever the assembler still accepts must not contain
+    # bytes computed from uninitialised storage (the source text is concrete, so every emitted byte has to be concrete)
+    for k, (cpu, ins) in enumerate(TRUNC):
+        for mode, mn in ((1, "truncated"), (2, "deleted"), (3, "replaced"), (4, "surplus"), (5, "surplus_front")):
+            if tier == "quick" and mode == 3 and k % 4 != 0: continue
+            js.append(vp.Job("%s.%s" % (mn, trunc_name(cpu, ins)), "truncated.cpp", {"CPUNAME": '"%s"' % cpu, "INSTR": '"%s"' % ins, "MODE": mode}, max_paths=5000, timeout=200, min_completed=1))
     return js
 
 def main(tier):
@@ -25,7 +165,8 @@ def main(tier):
         "Self-composition on naken_asm's real main(): it is executed twice in one process on the same source (a valid program with one solver-enumerated single-character corruption) "
         "with different reporting options (-l, -q, -dump_symbols, -dump_macros), a different output file name and the first run as history; Z3 decides on every path that both runs "
         "return the same status and write byte-identical output files.",
-        ["crosstype jobs: one program is assembled by the real two-pass flow with a SYMBOLIC number (0 .. 2^30) of empty lines before it (added to tokens.line after init() in both passes), then written by the real file_write() as bin, hex, srec and wdc; an own Intel-HEX decoder and the real srec/wdc readers bring the files back and Z3 decides byte equality with the bin file on every path",
+        ["truncated jobs: a concrete instruction (checks/C13.py TRUNC: 125 forms over 66 CPUs; all in both tiers) cut after an engine-chosen character, or with one character deleted, or with one character replaced by one of ' ,()#+' (every fourth form in the quick tier), or with up to nine surplus operands appended or put in front; if the assembler accepts the rest, every emitted byte must be concrete - the engine gives each uninitialised byte it loads a fresh symbolic value, so a symbolic emitted byte was computed from storage that is not determined by the source",
+         "crosstype jobs: one program is assembled by the real two-pass flow with a SYMBOLIC number (0 .. 2^30) of empty lines before it (added to tokens.line after init() in both passes), then written by the real file_write() as bin, hex, srec and wdc; an own Intel-HEX decoder and the real srec/wdc readers bring the files back and Z3 decides byte equality with the bin file on every path",
          "programs / option pairs listed in checks/C13.py; output types compared like with like (hex, bin, wdc); S-record output not compared (timestamp header)",
          "single-character substitutions of small programs; larger programs and other histories (naken_util interactive asm) outside the bound",
          "runs that end in exit() inside main are not compared"])
